@@ -45,6 +45,8 @@ class Interp:
         self.branch_conflicts = []  # (If node, variable, degree in body, degree in orelse): ground but different
         self.builtin_norm = builtin_norm
         self._stack = []
+        self.effects = {}  # memo key -> {param: degree after the call} for parameters modified in place (x /= norm(x))
+        self._touched = []  # stack of sets: names hit by an in-place operator in the running function
 
     # ------------------------------------------------------------------ unify
     def unify(self, a, b, node, what="sum"):
@@ -221,7 +223,14 @@ class Interp:
                     flags[k] = v.value
                 elif k in params:
                     argd[k] = self.ev(v, env)
-            return self.run(name, argd, flags)
+            out = self.run(name, argd, flags)
+            # in-place operators of the callee on a parameter act on the caller's array (np.asarray / asanyarray of a float
+            # array is the array itself): the caller's name carries the degree the callee left behind
+            eff = self.effects.get(self._last_key, {})
+            for p, a in zip(params, args):
+                if p in eff and isinstance(a, ast.Name) and a.id in env:
+                    env[a.id] = eff[p]
+            return out
         return TOP
 
     # ------------------------------------------------------------------ statements
@@ -229,6 +238,7 @@ class Interp:
         flags = flags or {}
         fn = self.functions[name]
         key = (name, tuple(sorted((k, fmt(v)) for k, v in argd.items())), tuple(sorted(flags.items())))
+        self._last_key = key
         if key in self.memo:
             return self.memo[key]
         if name in self._stack:
@@ -252,7 +262,11 @@ class Interp:
             else:
                 env[p] = TOP
         rets = []
+        self._touched.append(set())
         self.block(fn.body, env, flags, rets)
+        touched = self._touched.pop()
+        self.effects[key] = {p: env[p] for p in pos if p in touched and p in env}
+        self._last_key = key
         self._stack.pop()
         out = Z
         first = True
@@ -293,6 +307,8 @@ class Interp:
                     base = base.value
                 if isinstance(base, ast.Name):
                     env[base.id] = new
+                    if self._touched and not isinstance(s.target, ast.Subscript):
+                        self._touched[-1].add(base.id)
             elif isinstance(s, ast.If):
                 t = s.test
                 known = None
